@@ -24,6 +24,9 @@ CHECKS = {
  'C11': ('E3 + E1 state-graph', 'complete enumeration of monitor histories x tolerance x window x target x mask (every subset, every accepted format) for the five collapse detectors against an independent plain-Python definition, plus explicit-state exploration of op sequences {Step, StepTo(stop), Collapse, Solve} on real solvers with collapse terminations, judging every later cost call',
          'Detectors: every history of length 1-4 over {0,1e-5,1}^dim (dim<=3), product-measure monitors with npts (2,),(2,2),(3,2), masks in dict/set/where formats; result = definition minus mask, in the format of the mask, and feeding the result back as mask yields nothing. Solvers: NM, Powell, DE, DE2 on flat / tied costs with Or/And/When trees of ChangeOverGeneration, CollapseAt, CollapseAs, CollapseWeight, CollapsePosition; after a collapse every logged call and the final solution satisfy the relation exactly, termination masks grow by exactly what was applied, nothing is reported twice, Solve returns within the horizon under every generation limit 2..23.',
          'ensemble Collapse (documented as not implemented), CollapseCost at solver level and the offset=True relation are not judged; three known findings (F38-F40) are matched by signature', '3/C11'),
+ 'C07': ('E1 state-graph (diamond lattice) + E2 choice-tree (map schedules, baton-scheduled threads)', 'explicit-state diamond check over the lattice of subsets of the configuration calls (every U, every pair a,b outside U: U.a.b == U.b.a in canonical settings state, random-generator state and bit-exact trajectory) plus all literal permutations of a smaller call set; exhaustive enumeration of map evaluation orders (deviation bound) for DE2 and ensembles, sharing and dill-copying maps, Solve vs step-wise vs manual Step loop, and real threads under a baton scheduler with bounded preemptions at member-Step boundaries',
+         'Part A: the full 9-call lattice (4608 diamonds per solver) on NM, Powell, DE, DE2 plus a tight=True lattice, and all 720 (40320 thorough) literal orders of 6 (8) calls; part B: DE2 under a scripted map, every order of the NP work items per map call over 3 generations within a deviation bound, sharing and copying; part C: Lattice/Buckshot ensembles with nested NM/Powell, every member order per map call, sharing and copying map, three drive modes, and thread schedules with <= 1 (2) preemptions. One trajectory / result digest per configuration is required, equal to the serial default.',
+         'OS-process pools are represented by the dill-copying map; thread hand-offs only at member-Step boundaries; Solve(step=True) is compared on its final state only', '3/C07'),
  'C08': ('E3 + E2 choice-tree', 'lock-step comparison with reference models over a complete grid (NM/Powell) and exhaustive enumeration of every answer of sample/randrange/random() for every DE strategy call (complete tree) and whole generations (deviation bound 2)',
          'Nelder-Mead and Powell solvers are stepped iteration by iteration against independent reference implementations (textbook NM; direction-set loop around the same Brent search) over a cost x start x tolerance x maxiter grid with all NM branches and exact ties exercised, fmin/fmin_powell against scipy.optimize.fmin and the vendored scipy-0.6 routines; every DE trial is decoded from an encoded population under every scripted random answer and judged by the strategy definition; selection judged strictly.',
          'random() answers from {0, CR, 0.999}; four *Bin strategies judged under either crossover rule (DESIGN section 5); Powell stop rule (gtol=2) differences recorded, not judged', '3/C08'),
